@@ -1,3 +1,4 @@
+@dt.setter
 def spec(self, value):
     value = argtest.gt('dt', value, 0, float)
     if value != self.__step_time:
